@@ -1,5 +1,6 @@
 """C07 — unsafe content never reaches executed code, whatever is merged around it."""
 import sys, types
+import os
 from .. import common, gen, evalcorr, oracles, mergecorr, t2
 from . import base
 from .C09 import tree_paths
@@ -296,6 +297,50 @@ def known_sig(kf, failing):
     return False
 
 
+def rec_cases():
+    """!rec: every entry names a file that is built at evaluation time with THAT ENTRY's safety"""
+    out = []
+    for variant in ('entry_unsafe', 'appended_by_unsafe_source', 'unsafe_first', 'below_unsafe', 'all_safe'):
+        out.append(dict(rec=True, variant=variant))
+    return out
+
+
+def judge_rec(case):
+    from awesomeyaml.builder import Builder
+    from awesomeyaml.config import Config
+    from .C06 import Sandbox
+    install()
+    v = case['variant']
+    with Sandbox() as sb:
+        basef = sb.write('d/base.yaml', 'name: base\nlevel: 1\n')
+        plugin = sb.write('d/plugin.yaml', 'level: 2\nhook: !call:vmod.u9 {origin: 7}\n')
+        stages = {'entry_unsafe': [(f'ext: !rec ["{basef}", !unsafe "{plugin}"]', True)],
+                  'appended_by_unsafe_source': [(f'ext: !rec ["{basef}"]', True), (f'ext: !append ["{plugin}"]', False)],
+                  'unsafe_first': [(f'ext: !rec ["{plugin}"]', False), (f'ext: !append ["{basef}"]', True)],
+                  'below_unsafe': [(f'!unsafe\next: !rec ["{basef}", "{plugin}"]', True)],
+                  'all_safe': [(f'ext: !rec ["{basef}", "{plugin}"]', True)]}[v]
+        del EXEC[:]
+        try:
+            b = Builder()
+            for i, (t, sf) in enumerate(stages):
+                b.add_source(t, raw_yaml=True, filename=os.path.join(sb.dir, f'stage{i}.yaml'), safe=sf)
+            Config(b.build())
+            kind = 'ok'
+        except Exception as e:
+            kind = 'EUnsafe' if evalcorr.has_unsafe_cause(e) else evalcorr.err_kind(e)
+            msg = str(e)[:200]
+    executed = [f for f, _, _ in EXEC]
+    if v == 'all_safe':
+        if kind != 'ok' or executed != ['vmod.u9']:
+            return dict(case=case, reason='control: a !call in a file named by a safe !rec entry must run once', got=kind, executed=executed)
+        return None
+    if executed:
+        return dict(case=case, reason='a !call from a file named by an UNSAFE !rec entry was executed', executed=executed)
+    if kind != 'EUnsafe':
+        return dict(case=case, reason='expected an UnsafeError', got=kind)
+    return None
+
+
 def gen_name_case(rng):
     """a value from unsafe content read BY NAME from evaluated code (!eval, f-string), in both key orders and through a nested name"""
     mark = rng.choice(['!unsafe 2', '!unsafe {k: 2}', '!unsafe [1, 2]'])
@@ -361,6 +406,7 @@ def run(rep, tier, rng):
             if not r.get('unsafe_cause'):
                 return dict(text=l, reason='expected an UnsafeError', got=r['kind'], err=r.get('err'))
         return None
+    base.run_oracle(rep, 'C07', '!rec entries are loaded with their own safety', rec_cases(), judge_rec)
     base.run_oracle(rep, 'C07', 'unsafe data read by name from !eval / f-string code, both key orders (repaired defect)', nm, judge_names, known_sig=known_sig, show=lambda c: dict(names=True, layouts=c['layouts']))
     base.run_oracle(rep, 'C07', 'no unsafe node executed, no unsafe value passed to a call', scen, judge, known_sig=known_sig,
                     show=lambda c: dict(docs=[gen.render(d) for d in c['docs']], safes=c['safes']))
@@ -371,6 +417,10 @@ def replay(data):
     if 'input' in r:
         from ..reparse import parse_doc
         x = r['input']
+        if x.get('rec') or (isinstance(x.get('case'), dict) and x['case'].get('rec')):
+            f = judge_rec(x.get('case', x))
+            print('replay:', 'property FAILS' if f else 'property holds', f or '')
+            return 1 if f else 0
         if x.get('names'):
             from .. import scenrun
             res = scenrun.run_batch([dict(texts=[l], probes=[]) for l in x['layouts']])
